@@ -99,16 +99,17 @@ Init == /\ \E pm \in PolModes : pol = pm[1] /\ mode = pm[2]
         /\ sent = 0 /\ wire = <<>> /\ log = <<>> /\ buf = <<>> /\ out = <<>> /\ done = FALSE
 
 \* sender: chunk number sent+1 (EncodeChunks slice, signAndEncrypt, Write)
+NextChunk ==
+  LET last == (sent + 1 = NrChunks)
+      off  == sent * MB
+      len  == IF last THEN n - off
+              ELSE IF Dev_ShortIntermediate THEN MB - 1 ELSE MB
+      kind == IF last \/ Dev_IntermediateFinal THEN "F" ELSE "C"
+  IN SymChunk(pol, mode, len) @@ [kind |-> kind, off |-> off, msgSize |-> SymChunk(pol, mode, len).total]
 SendChunk ==
   /\ sent < NrChunks
-  /\ LET last == (sent + 1 = NrChunks)
-         off  == sent * MB
-         len  == IF last THEN n - off
-                 ELSE IF Dev_ShortIntermediate THEN MB - 1 ELSE MB
-         kind == IF last \/ Dev_IntermediateFinal THEN "F" ELSE "C"
-         c    == SymChunk(pol, mode, len) @@ [kind |-> kind, off |-> off, msgSize |-> SymChunk(pol, mode, len).total]
-     IN /\ wire' = Append(wire, c)
-        /\ log'  = Append(log, c)
+  /\ wire' = Append(wire, NextChunk)
+  /\ log'  = Append(log, NextChunk)
   /\ sent' = sent + 1
   /\ UNCHANGED <<pol, mode, cs, n, buf, out, done>>
 
